@@ -31,7 +31,7 @@ meta = {
    "demo_without_change": "PASS" if re.search(r'== demo without change.*\nok ', log) else "SEE LOG",
    "demo_with_change": "FAIL" if re.search(r'== demo with change.*\n--- FAIL', log) else "SEE LOG",
    "suite_with_change_failures": re.findall(r'--- FAIL: (\S+)', log.split('== suite with change')[1]) if '== suite with change' in log else [],
-   "known_always_fail": ["TestFileSS_BadPerm"], "known_flaky": ["TestRaft_HasExistingState", "TestRaft_FollowerRemovalNoElection", "TestRaft_ProtocolVersion_Upgrade_1_2", "TestRaft_ProtocolVersion_Upgrade_2_3", "TestRaft_RestoreSnapshotOnStartup_Monotonic"],
+   "known_always_fail": ["TestFileSS_BadPerm"], "known_flaky": ["TestRaft_HasExistingState", "TestRaft_FollowerRemovalNoElection", "TestRaft_ProtocolVersion_Upgrade_1_2", "TestRaft_ProtocolVersion_Upgrade_2_3", "TestRaft_RestoreSnapshotOnStartup_Monotonic", "TestRaft_PreVoteMixedCluster", "TestRaft_LeadershipTransferLeaderReplicationTimeout", "TestRaft_ClusterCanRegainStability_WhenNonVoterWithHigherTermJoin", "TestRaft_PreVoteAvoidElectionWithPartition", "TestRaft_SnapshotRestore_PeerChange", "TestNetworkTransport_AppendEntriesPipeline_CloseStreams", "TestRaft_NoRestoreOnStart (logs after completion on the pristine tree too: panics the binary, the test running at that moment is reported failed)", "TestRaft_AddKnownPeer (victim of the NoRestoreOnStart panic)"],
    "log": log,
  },
  "detected_by": det,
